@@ -635,3 +635,13 @@ M("x-address-shown-before-save-via-context-manager", "C15", "R15.3", "skepticoin
   "    public_key = wallet.get_annotated_public_key(args.annotation)\n    save_wallet(wallet)\n",
   "    with _saving(wallet):\n        public_key = wallet.get_annotated_public_key(args.annotation)\n        print(\"SKE\" + human(public_key) + \"PTI\")\n",
   "skepticoin/scripts/receive.py", "def main() -> None:\n", "from contextlib import contextmanager\n\n\n@contextmanager\ndef _saving(wallet):  # type: ignore\n    yield wallet\n    save_wallet(wallet)\n\n\ndef main() -> None:\n")
+
+# ----------------------------------------------------------------------------------------------- held-out round rules
+M("x-inventory-pruned-while-iterated", "C10", "RX.3", RP,
+  "                for item in msg_state.message.items:\n",
+  "                for item in msg_state.message.items:\n                    if item.hash in self.local_peer.chain_manager.coinstate.block_by_hash:\n                        msg_state.message.items.remove(item)\n                        continue\n")
+M("x-catch-all-handler-looks-up-peer", "C20", "R20.12", "skepticoin/networking/local_peer.py",
+  "            self.disconnect(remote_peer, \"Exception\")\n",
+  "            self.disconnect(remote_peer, \"Exception\")\n            self.network_manager.disconnected_peers[(remote_peer.host, remote_peer.port, remote_peer.direction)].ban_score += 1\n")
+M("x-set-coinstate-default-flipped", "C01", "R13.6", MGR,
+  "    def set_coinstate(self, coinstate: CoinState, validated: bool = True) -> None:", "    def set_coinstate(self, coinstate: CoinState, validated: bool = False) -> None:")
